@@ -261,9 +261,12 @@ Proof.
 Qed.
 
 Lemma check_C18_sound c : check_C18 c = true ->
-  forall q, prefixb (c_T c) q = false -> look (fs_of_view (c_pre c)) q = look (fs_of_view (c_post c)) q.
+  (forall q, prefixb (c_T c) q = false -> look (fs_of_view (c_pre c)) q = look (fs_of_view (c_post c)) q) /\
+  c_out_xattr c = false.
 Proof.
-  intros H q Hq. unfold check_C18 in H. eapply agree_on_spec; [exact H|]. unfold outside. rewrite Hq. reflexivity.
+  intros H. unfold check_C18 in H. apply andb_true_iff in H as [H Hx]. split.
+  - intros q Hq. eapply agree_on_spec; [exact H|]. unfold outside. rewrite Hq. reflexivity.
+  - apply negb_true_iff in Hx. exact Hx.
 Qed.
 
 (* ---- non-vacuity: the regression shapes of the two repaired defects, run through the model ---- *)
